@@ -67,16 +67,22 @@ CLAIMS['C03'] = dict(
          "the proved part.",
     technique='contract-based deductive verification of hint normalisation and RNG independence (block contracts, z3) + bounded metamorphic relations')
 CLAIMS['C04'] = dict(
-    category='other',
-    text="Proved as block contracts on the real AST of replace_pattern_in_structure: the matches selected for replacement are "
+    category='proof',
+    text="Proved on the real AST of replace_pattern_in_structure. (a) Block contract on the selection: the matches selected for replacement are "
          "round(f*M) (ties to even; all M for f >= 1) pairwise distinct members of the found list, positions and rotations follow the same "
-         "selection, and the reported count is their number; the deletion-set algebra is C07's proof on the same statements; per-atom "
-         "order/data of survivors follow from the proved contract of __delitem__ (C10). The whole-function composition over the match loop "
-         "(atom and per-element counts, bystanders unchanged in order, retained atoms in place, inputs unmodified) is not assembled into one "
-         "proof and is only checked with a stated bound: 126 planted replacements quick (9 pattern pairs x 4 cells x 5 fractions x "
-         "replace_all).",
-    note="Level 'other': central frame/count clauses are bounded. Assumes random.sample and round contracts.",
-    technique='contract-based deductive verification of the selection block (own VC generator, z3) + bounded planted-structure replacement')
+         "selection, and the reported count is their number. (b) Frame of the whole replacement for ANY number of matches: the statements "
+         "from `new_structure = structure.copy()` to the bulk delete are executed with the match loop cut at an invariant and with "
+         "Atoms.extend_types / extend / __delitem__ replaced by their contracts proved in C11 / C10 (their preconditions become obligations "
+         "at the call sites): the removed atoms are exactly the atoms of the replaced matches at search positions not common to both "
+         "patterns (all matched atoms with replace_all); every atom not removed -- bystanders and atoms common to both patterns -- keeps "
+         "position, charge, group and order, atoms outside all matches also their type id, and old type ids keep their table entries; the "
+         "input structure and the replacement pattern are not modified. Overlap handling is C07. The number and element of the inserted atoms "
+         "(atom / per-element counts) and the empty-replacement branch are only checked with a stated bound: 195 planted replacements quick "
+         "(9 pattern pairs x 4 cells x 5 fractions x replace_all).",
+    note="Assumed: contracts of find_pattern_in_structure (matches list distinct existing atoms; C01 bounded part) and find_unchanged_atom_pairs "
+         "(partial injection); random.sample, round, list(set), row-wise numpy operations keep the row count; A4 deepcopy. Callee contracts are "
+         "those proved in C10 / C11 (C11: all 16 kind scenarios in the thorough tier).",
+    technique='contract-based deductive verification (modular: match loop under invariant against the proved contracts of extend / __delitem__, z3) + bounded planted-structure replacement')
 CLAIMS['C05'] = dict(
     category='proof',
     text="The placement statements of the match loop (copy, q.apply, translate, wrap) and the two pattern translations at the top of "
